@@ -146,7 +146,9 @@ PortStrs == { <<sch, "sl", "sl">> \o h \o p \o t :
                 sch \in {"http", "https", "HTTPS", "hTtP"},
                 h \in {<<"good">>, <<"evil">>, <<"evil", "at", "good">>, <<"good", "at", "evil">>, <<"seg", "dot", "good">>, <<"v6">>, <<"v6map">>, <<"good", "at", "v6">>},
                 p \in {<<>>, <<"col">>, <<"col", "p80">>, <<"col", "p443">>, <<"col", "port">>, <<"col", "p80", "col", "p443">>, <<"col", "p443", "at", "good">>},
-                t \in {<<>>, <<"sl">>, <<"sl", "seg">>, <<"q", "seg">>, <<"h">>, <<"bs", "evil">>} }
+                t \in {<<>>, <<"sl">>, <<"sl", "seg">>, <<"q", "seg">>, <<"h">>, <<"bs", "evil">>,
+                       \* paths that are themselves protocol-relative or back-slashed (dangerous the moment anybody strips scheme and host)
+                       <<"sl", "sl", "evil">>, <<"sl", "sl", "evil", "sl", "seg">>, <<"sl", "bs", "evil">>, <<"sl", "tab", "sl", "evil">>} }
 \* (the grammar strings are enumerated position by position: TLC refuses to build sets of more than 10^6 elements)
 T == Tokens
 \* plain same-site paths and queries with escapes (the byte-for-byte clause)
